@@ -565,9 +565,21 @@ func c13Wire(m proto.Message) []byte {
 }
 
 func (r *c13Run) doJoin(name string) bool {
+	// Switch.stopAndRemovePeer runs peer.Stop (the harness forgets the peer there), then every
+	// reactor's RemovePeer, and takes the peer out of the peer set LAST -- in a goroutine of the
+	// reactor that itself needs the trace lock for its hooks.  A re-join of the same id has to
+	// come after that removal has completed (as in production: the switch refuses a duplicate
+	// id), so wait for the condition -- without holding the trace lock.
+	id := c13PeerID(name)
+	for i := 0; r.sw.Peers().Has(id) && !r.isAlive(name); i++ {
+		if i > 20000 {
+			return false
+		}
+		time.Sleep(500 * time.Microsecond)
+	}
 	r.tr.Lock()
 	defer r.tr.Unlock()
-	if r.alive[name] != nil || atomic.LoadInt32(&r.handed) == 1 {
+	if r.alive[name] != nil || atomic.LoadInt32(&r.handed) == 1 || r.sw.Peers().Has(id) {
 		return false
 	}
 	p := newC13Peer(r, name)
@@ -577,7 +589,10 @@ func (r *c13Run) doJoin(name string) bool {
 	// Switch.addPeer: InitPeer on every reactor, add to the peer set, AddPeer on every reactor
 	r.bcR.InitPeer(p)
 	if err := r.sw.Peers().(*p2p.PeerSet).Add(p); err != nil {
-		panic(err)
+		delete(r.alive, name)
+		r.joins[name]--
+		p.Stop() //nolint:errcheck
+		return false
 	}
 	e := r.log(map[string]interface{}{"ev": "Join", "p": name})
 	r.bcR.AddPeer(p)
